@@ -10,6 +10,9 @@ use std::path::{Path, PathBuf};
 use crate::common::debug;
 
 use std::str::FromStr;
+#[cfg(rufsm_verif)]
+use crate::verif_sync::atomic::{AtomicU32, AtomicUsize, Ordering};
+#[cfg(not(rufsm_verif))]
 use std::sync::atomic::{AtomicU32, AtomicUsize, Ordering};
 use std::time::{SystemTime, UNIX_EPOCH};
 use std::{env, mem, str, string::String};
